@@ -184,6 +184,34 @@ func checkC13(p *Prog, res *Result, tier string) {
 			res.und("C13-R2", funcName(rsImpl), p.pos(rsImpl.Pos()), "stream producer / terminator constructor / scan function not found")
 			continue
 		}
+		// the stream is handed out only with its producer running: no return of the entry function before the go
+		// statement, and the entry function itself does not close the stream (a stream that ends without a terminator
+		// leaves the etcd client waiting for the end-of-range event)
+		{
+			c0 := funcName(rsImpl) + ": every stream it hands out has a producer that ends it with the terminator"
+			var goIns ssa.Instruction
+			var early ssa.Instruction
+			for _, c := range callsIn(rsImpl) {
+				if g, ok := c.(*ssa.Go); ok {
+					goIns = g
+				}
+				if call, ok := c.(*ssa.Call); ok {
+					if bi, ok := call.Common().Value.(*ssa.Builtin); ok && bi.Name() == "close" {
+						early = call
+					}
+				}
+			}
+			for _, b := range rsImpl.Blocks {
+				if ret, ok := b.Instrs[len(b.Instrs)-1].(*ssa.Return); ok && goIns != nil && !instrDominates(goIns, ret) {
+					early = ret
+				}
+			}
+			if early != nil {
+				res.bad("C13-R2", c0, p.pos(early.Pos()), "the entry function closes or returns the stream on a path that has not started the producer: that stream ends without a terminator (for two coinciding partition borders, or a range that starts at its own end, the client waits for an end that never comes)")
+			} else {
+				res.ok("C13-R2", c0, p.pos(rsImpl.Pos()), "the go statement dominates every return; the stream is closed by the producer only")
+			}
+		}
 		var scanCall, termCall *ssa.Call
 		var sends []*ssa.Send
 		nTerm := 0
